@@ -404,10 +404,22 @@ def data_cases(tier, seed):
                        "level": 0.3 if ts is None else None, "fit_rows": k}
 
 
-FAMILIES = {"grid": lambda t, s: grid_cases(t), "rowmax": lambda t, s: rowmax_cases(t),
+def long_cases(tier):
+    for n in (12, 16, 24) if tier == "quick" else (12, 16, 24, 32, 40):
+        for msl, M, g in ((1, 8, 1.5), (4, n, 1.5), (5, 12, 2.0), (2, n, 1.25)):
+            if n < 2 * msl or M < 2 * msl:
+                continue
+            for cps, xs in util.structured_series(n, 2, (0.0, 3.0)):
+                if len(cps) == 2 and (cps[0] * 3 + cps[1]) % 4 and n > 16:
+                    continue
+                for score, ts in (("CUSUM", 0.5), ("L2cost", 1.0)):
+                    yield {"fam": "data", "x": list(xs), "n": n, "score": score, "msl": msl, "M": M, "growth": g, "thr_scale": ts}
+
+
+FAMILIES = {"long": lambda t, s: long_cases(t), "grid": lambda t, s: grid_cases(t), "rowmax": lambda t, s: rowmax_cases(t),
             "greedy": lambda t, s: greedy_full_cases(t), "greedy-dev": lambda t, s: greedy_dev_cases(t),
             "data": lambda t, s: data_cases(t, s)}
-NSH = {"grid": 16, "rowmax": 32, "greedy": 48, "greedy-dev": 48, "data": 64}
+NSH = {"long": 32, "grid": 16, "rowmax": 32, "greedy": 48, "greedy-dev": 48, "data": 64}
 
 
 def shards(tier, seed):
@@ -420,6 +432,7 @@ def bounds(tier, seed):
         "small_configs(n,msl,M,growth)": [list(c) for c in small_configs(tier)],
         "levels": "multiples (0,1,2,3) of the read-back threshold; 1 = exact tie with the threshold",
         "greedy-dev": "n in (8,9,10,12) quick / (7..14,16) thorough, msl<=2, <=2 non-zero intervals (pairs restricted to overlapping intervals), splits {first, middle, last}",
+        "long": "piecewise-constant textured series n in (12,16,24) quick / up to 40, <= 2 changes (all placements for n<=16), msl in (1,2,4,5), CUSUM and L2Cost",
         "data": "all series over (0,4) n<=9/11, (0,1,3) and its seed-affine image n<=7/8; 2-column (0,3) n<=5; scores CUSUM, L2Cost, ChangeScore(GaussianVarCost); thresholds 0, 0.5*default, tuned(level 0.3)",
     }
 
